@@ -329,32 +329,57 @@ class CellsRefused(Exception):
 
 
 def cell_constants(node, atom_name):
-    """Constants the atom is compared with / switched on.  Raises CellsRefused if the atom has any other use
-    except as an identity leaf (returned as a value)."""
+    """Constants the atom is compared with / switched on.  Raises CellsRefused if the atom's *value* has any other use:
+    the value may be compared with constants, selected by an `ite` (the selection then carries the value, or a constant,
+    and is subject to the same rule), stored in a returned aggregate, or be the result itself — never flow into
+    arithmetic, bit operations, casts, calls or comparisons with anything but a constant."""
     consts = set()
     parents = {}
-    for x in walk(node):
+    nodes = list(walk(node))
+    for x in nodes:
         for ch in children(x):
             parents.setdefault(id(ch), []).append(x)
     target = None
-    for x in walk(node):
+    for x in nodes:
         if x[0] == 'atom' and x[1] == atom_name:
             target = x
     if target is None:
         return consts, None
-    for p in parents.get(id(target), []):
-        k = p[0]
-        if k == 'bin' and p[1] in CMP:
-            other = p[3] if p[2] is target else p[2]
-            if other[0] != 'c':
-                raise CellsRefused("atom %s compared with a non-constant" % atom_name)
-            consts.add(other[1])
-        elif k == 'ite' and (p[2] is target or p[3] is target) and p[1] is not target:
-            pass  # identity leaf
-        elif k == 'agg':
-            pass  # identity leaf inside a returned aggregate
-        else:
-            raise CellsRefused("atom %s used by %s %s" % (atom_name, k, p[1] if k in ('bin', 'un', 'call') else ''))
+    carriers = {id(target): target}        # nodes whose value is the atom's value (or a constant) on some path
+    work = [target]
+    while work:
+        cur = work.pop()
+        for p in parents.get(id(cur), []):
+            k = p[0]
+            if k == 'bin' and p[1] in CMP:
+                other = p[3] if p[2] is cur else p[2]
+                if other is cur:
+                    continue
+                if other[0] != 'c':
+                    if id(other) in carriers:
+                        raise CellsRefused("atom %s compared with a value derived from itself" % atom_name)
+                    raise CellsRefused("atom %s compared with a non-constant" % atom_name)
+                consts.add(other[1])
+            elif k == 'ite' and (p[2] is cur or p[3] is cur) and p[1] is not cur:
+                if id(p) not in carriers:
+                    carriers[id(p)] = p
+                    # the other branch may be a constant (or another carrier); a constant leaf that is later compared
+                    # adds nothing, a non-constant non-carrier branch makes later comparisons non-tabular
+                    work.append(p)
+            elif k == 'agg':
+                if id(p) not in carriers:
+                    carriers[id(p)] = p
+                    work.append(p)
+            else:
+                raise CellsRefused("atom %s used by %s %s" % (atom_name, k, p[1] if k in ('bin', 'un', 'call') else ''))
+    # a selection that mixes the value with something that is neither a constant nor the value, and is then compared
+    for cid, c in carriers.items():
+        if c[0] == 'ite':
+            for br in (c[2], c[3]):
+                if id(br) not in carriers and br[0] != 'c' and not (br[0] == 'agg'):
+                    for p in parents.get(cid, []):
+                        if p[0] == 'bin' and p[1] in CMP:
+                            raise CellsRefused("a selection between atom %s and another value is compared" % atom_name)
     return consts, target
 
 
